@@ -22,6 +22,14 @@ Record lcase := {
   k_audio : text;                                   (* say_msg's base audio URL ("" = none) *)
   k_tr_subject : translations; k_tr_body : translations;
   k_tr_say_text : translations; k_tr_say_audio : translations; k_tr_play_audio : translations;
+  (* every non-empty text of the message evaluates to "" (the harness uses an expression reading an unset field) *)
+  k_eval_empty : bool;
+  (* templated send_msg (a flow of its own): base template variables, their translations, the values observed in the
+     message's templating (the template translation has 2 variables) *)
+  k_tvars : list text; k_tr_tvars : translations; k_o_tvars : list text;
+  (* BroadcastTranslations.ForContact for a recipient of each language 0..4: content and language of the locale *)
+  k_o_forc : list (lang * (text * (list text * list text)));
+  k_o_forc_lang : list lang;
   k_o_email : option (text * text);
   k_o_say : option (text * (text * lang));
   k_o_play : option (text * (text * lang))
@@ -67,6 +75,13 @@ Definition email_eqb (a b : option (text * text)) : bool :=
   | _, _ => false
   end.
 
+Fixpoint langs_eqb (a b : list lang) : bool :=
+  match a, b with
+  | [], [] => true
+  | x :: a', y :: b' => N.eqb x y && langs_eqb a' b'
+  | _, _ => false
+  end.
+
 Definition base_lang : lang := 1.
 (* the fixed base values of the harness's flows: "subj", "body", "say", "http://x.io/play.mp3" *)
 Definition subj : text := [115; 117; 98; 106].
@@ -80,19 +95,26 @@ Definition cat : text := [67; 97; 116].
 Definition check (k : lcase) : bool :=
   let m := {| m_text := k_text k; m_atts := k_atts k; m_qrs := k_qrs k;
               tr_text := k_tr_text k; tr_atts := k_tr_atts k; tr_qrs := k_tr_qrs k |} in
-  let o := evaluate_message (k_clang k) (k_allowed k) base_lang m in
+  let ev_text := if k_eval_empty k then (fun _ : text => @nil N) else (fun t : text => t) in
+  let idl := fun l : list text => l in
+  let o := evaluate_message_gen ev_text idl idl (k_clang k) (k_allowed k) base_lang m in
   let args := case_arguments (k_clang k) (k_allowed k) base_lang (k_args k) (k_tr_args k) in
   let matched := texts_eqb args range_1_10 in
   let catl := category_localized (k_clang k) (k_allowed k) base_lang (k_tr_name k) in
   (* set_run_result: localized category, blanked when equal to the base category *)
   let sr := set_run_result_category_localized (k_clang k) (k_allowed k) base_lang cat (k_tr_cat k) in
   (* send_broadcast: the last content written per language, in language order *)
-  let bc := broadcast_translations base_lang (k_loc_langs k) m in
+  let bc := broadcast_translations_gen ev_text idl idl base_lang (k_loc_langs k) m in
+  let recipients := [0; 1; 2; 3; 4] in
+  let forc := map (fun rl => for_contact rl (k_allowed k) base_lang bc) recipients in
   text_eqb (o_text o) (k_o_text k) && texts_eqb (o_atts o) (k_o_atts k)
   && texts_eqb (o_qrs o) (k_o_qrs k) && N.eqb (o_lang o) (k_o_lang k)
   && text_eqb sr (k_o_setres k) && Bool.eqb matched (k_o_matched k)
   && (negb matched || text_eqb catl (k_o_catl k))
   && bcast_eqb (bcast_view bc) (k_o_bcast k)
+  && texts_eqb (template_variables (k_clang k) (k_allowed k) base_lang 2 (k_tvars k) (k_tr_tvars k)) (k_o_tvars k)
+  && bcast_eqb (combine recipients (map (fun o => (o_text o, (o_atts o, o_qrs o))) forc)) (k_o_forc k)
+  && langs_eqb (map o_lang forc) (k_o_forc_lang k)
   && email_eqb (send_email_texts (k_clang k) (k_allowed k) base_lang subj body (k_tr_subject k) (k_tr_body k))
                (k_o_email k)
   && ivr_eqb (ivr_view (say_msg_out (k_clang k) (k_allowed k) base_lang say (k_audio k)
